@@ -4899,6 +4899,8 @@ EmitJmpCall:
 
           err = _code->add_address_to_address_table(jump_address);
           if (ASMJIT_UNLIKELY(err != Error::kOk)) {
+            // Discard the relocation entry created above as nothing is going to be emitted.
+            (void)_code->_relocations.pop();
             goto Failed;
           }
 
@@ -4961,6 +4963,10 @@ EmitRel:
 
     Fixup* fixup = _code->new_fixup(*label, _section->section_id(), offset, rel_offset, of);
     if (ASMJIT_UNLIKELY(!fixup)) {
+      // Discard the relocation entry (if any) created for this instruction as nothing is going to be emitted.
+      if (re) {
+        (void)_code->_relocations.pop();
+      }
       goto OutOfMemory;
     }
 
